@@ -323,8 +323,8 @@ def client_thread(ctx, rig, nid, tid, nthreads, ops, seed, mode, errors):
                 got_l = local.sdo[key].raw
             except Exception as exc:  # noqa: BLE001
                 errors.append((case, exc, time.time() - t0))
-                mst = getattr(rig, "master_station", None)
-                if mst is not None and mst.delivering_since is not None and time.time() - mst.delivering_since > 10.0:
+                since = getattr(getattr(rig, "master_station", None), "delivering_since", None)      # (read once: another thread resets it)
+                if since is not None and time.time() - since > 10.0:
                     break               # the network's receive path is stuck: nothing more can be learnt from this thread
                 continue
             ctx.count("roundtrips")
@@ -403,11 +403,11 @@ def run_threaded(ctx, desc):
     ctx.add("noise_frames", noise_count[0])
     if hung:
         ctx.inconc(f"client threads still running after the watchdog: {hung}", {"mode": mode, "threads": nthreads})
-    mst = getattr(rig, "master_station", None)
-    blocked = mst is not None and mst.delivering_since is not None and time.time() - mst.delivering_since > 10.0
+    since = getattr(getattr(rig, "master_station", None), "delivering_since", None)          # (read once: another thread resets it)
+    blocked = since is not None and time.time() - since > 10.0
     if blocked:
         ctx.violation(f"receive-path-blocked:{mode}", f"the master network's receive path has not returned from one frame for "
-                      f"{time.time() - mst.delivering_since:.0f} s (every later frame of every node is stuck behind it)", {"mode": mode, "threads": nthreads})
+                      f"{time.time() - since:.0f} s (every later frame of every node is stuck behind it)", {"mode": mode, "threads": nthreads})
         errors = [e for e in errors if not (isinstance(e[1], SdoCommunicationError) and "No SDO response" in str(e[1]))]
     tainted = set()         # nodes on which a time-out was put down to starved harness threads: a late answer may follow
     for case, exc, dt_ in errors:
